@@ -19,6 +19,9 @@ type ChanFault struct {
 	At   int    `json:"at"`            // packet index in the fault-free stream
 	Gap  int    `json:"gap,omitempty"` // dup: number of following packets the copy is delayed by (never past the next packet of its PID)
 	N    int    `json:"n,omitempty"`   // drop: number of consecutive packets of that PID to drop (default 1)
+	// dup: the copy carries another PCR value than the original (if it carries one), which is the
+	// one difference ISO 13818-1 2.4.3.3 allows between a packet and its duplicate
+	Restamp bool `json:"restamp,omitempty"`
 }
 
 // LossyScenario: a reference stream carried through a lossy/duplicating packet channel
@@ -103,6 +106,7 @@ func (lossy) Generate(r *core.PRNG, tier string, idx int64) any {
 	cfg.BigPES = r.Chance(1, 5)
 	cfg.BigPSI = false
 	cfg.MaxPES = []int{200, 500, 900}[r.Intn(3)]
+	cfg.MidPCR = r.Chance(1, 3)
 	sc := &LossyScenario{Model: GenModel(r, cfg)}
 	if idx%2 == 0 {
 		sc.Enum = true
@@ -117,9 +121,9 @@ func (lossy) Generate(r *core.PRNG, tier string, idx int64) any {
 		f := ChanFault{At: r.Intn(n)}
 		switch r.Pick(3, 2, 3, 2) {
 		case 0:
-			f.Kind = "dup"
+			f.Kind, f.Restamp = "dup", r.Bool()
 		case 1:
-			f.Kind, f.Gap = "dup", r.Range(1, 6)
+			f.Kind, f.Gap, f.Restamp = "dup", r.Range(1, 6), r.Chance(1, 3)
 		case 2:
 			f.Kind, f.N = "drop", 1
 		default:
@@ -136,6 +140,7 @@ func applyFaults(b *refts.Built, faults []ChanFault) (pk [][]byte, dropped map[i
 	n := len(b.Packets)
 	dropped = map[int]bool{}
 	dups = map[int]int{} // original index -> delay
+	restamp := map[int]bool{}
 	// last payload packet index per PID
 	lastOf := map[uint16]int{}
 	for i, m := range b.Meta {
@@ -157,6 +162,9 @@ func applyFaults(b *refts.Built, faults []ChanFault) (pk [][]byte, dropped map[i
 		case "dup":
 			if _, ok := dups[f.At]; !ok && !dropped[f.At] {
 				dups[f.At] = f.Gap
+				if f.Restamp {
+					restamp[f.At] = true
+				}
 			}
 		case "drop":
 			cnt := f.N
@@ -215,7 +223,11 @@ func applyFaults(b *refts.Built, faults []ChanFault) (pk [][]byte, dropped map[i
 		l := insertAfter[i]
 		sort.Ints(l)
 		for _, o := range l {
-			pk = append(pk, b.Packets[o])
+			c := b.Packets[o]
+			if restamp[o] {
+				c, _ = refts.RestampPCR(c)
+			}
+			pk = append(pk, c)
 		}
 	}
 	return
@@ -361,6 +373,10 @@ func (lossy) Execute(scAny any, keepLog bool) *core.Outcome {
 				continue
 			}
 			one([]ChanFault{{Kind: "dup", At: i}})
+			if _, has := refts.RestampPCR(b.Packets[i]); has {
+				out.Probe("dup-restamped-pcr")
+				one([]ChanFault{{Kind: "dup", At: i, Restamp: true}})
+			}
 			if i != lastOf[b.Meta[i].PID] {
 				one([]ChanFault{{Kind: "drop", At: i, N: 1}})
 			}
